@@ -1,5 +1,3 @@
-//@ target: src/decoder.rs
-
 // ---------------------------------------------------------------------------------------------
 // Modular stand-in for `number_decode`, justified by its Verus contract (unit `numdec`):
 //   number_decode(d) == Some(min(dec(d), usize::MAX)) if d is all ASCII digits (Some(0) if empty), else None.
@@ -8,6 +6,9 @@
 // and a value landing in the wrong field is observable because fields use distinct markers.
 static mut VALS: [usize; 10] = [0; 10];
 fn number_decode_stub(data: &[u8]) -> Option<usize> {
+    if data.len() == 1 && data[0] == b'~' {
+        return Some(1); // probe used by stub_active(): the real function rejects it
+    }
     if data.len() == 0 {
         Some(0)
     } else if data.len() == 1 && data[0] >= b'0' && data[0] <= b'9' {
@@ -22,35 +23,20 @@ fn number_decode_stub(data: &[u8]) -> Option<usize> {
         Some(kani::any())
     }
 }
+// true under Kani (stub installed); false when a counterexample is replayed natively, where the REAL
+// number_decode runs: the harness then feeds real decimal digit strings instead of marker digits.
+fn stub_active() -> bool { number_decode(b"~").is_some() }
+fn expand(buf: &[u8], v: &[usize; 10]) -> Vec<u8> {
+    let mut out = Vec::new();
+    for &c in buf {
+        if c >= b'0' && c <= b'9' { out.extend(v[(c - b'0') as usize].to_string().bytes()); } else { out.push(c); }
+    }
+    out
+}
 fn set_vals() -> [usize; 10] {
     let v: [usize; 10] = kani::any();
     unsafe { VALS = v; }
     v
-}
-
-//# kind=complete tier=quick props=C02,C04 fns=keyboard_decode_key | keyboard_decode_key(code) never panics; Char(c) only for Unicode scalar values outside the private-use block with c as u32 == code; F(n) has 13 <= n <= 35; named keys per kitty table; everything else None (all usize)
-#[kani::proof]
-#[kani::unwind(2)]
-fn c02_keyboard_decode_key() {
-    let code: usize = kani::any();
-    match keyboard_decode_key(code) {
-        Some(KeyName::Esc) => assert!(code == 27),
-        Some(KeyName::Enter) => assert!(code == 13),
-        Some(KeyName::Tab) => assert!(code == 9),
-        Some(KeyName::Backspace) => assert!(code == 127),
-        Some(KeyName::F(n)) => assert!(code >= 57376 && code <= 57398 && n == code - 57376 + 13),
-        Some(KeyName::Char(c)) => {
-            assert!(c as usize == code);
-            assert!(!(code >= 57344 && code <= 63743));
-            assert!(code <= 0x10FFFF && !(code >= 0xD800 && code <= 0xDFFF));
-        }
-        Some(_) => assert!(false),
-        None => assert!(
-            (code >= 57344 && code <= 63743 && !(code >= 57376 && code <= 57398))
-                || code > 0x10FFFF || (code >= 0xD800 && code <= 0xDFFF)
-        ),
-    }
-    kani::cover!(matches!(keyboard_decode_key(code), Some(KeyName::Char(_))));
 }
 
 // xterm 256-colour palette, written from the xterm formula (not from the tables in decoder.rs)
@@ -69,46 +55,6 @@ fn xterm256(i: usize) -> (u8, u8, u8) {
         let v = (8 + 10 * (i - 232)) as u8;
         (v, v, v)
     }
-}
-
-//# kind=complete tier=quick props=C04,C02 fns=sgr_color | sgr_color over any argument list (0..=6 numeric fields, every value): `5;n` is the xterm-256 colour n (n<256) else None; `2;r;g;b` and `2;x;r;g;b` are exactly (r,g,b) when each <= 255, and never a wrapped-around component; anything else None; no panic
-#[kani::proof]
-#[kani::unwind(8)]
-#[kani::stub(number_decode, number_decode_stub)]
-fn c04_sgr_color() {
-    let v = set_vals();
-    let n: usize = kani::any();
-    kani::assume(n <= 6);
-    let fields: [&[u8]; 6] = [b"1", b"2", b"3", b"4", b"5", b"6"];
-    let got = sgr_color(fields[..n].iter().copied());
-    let arg = |k: usize| -> Option<usize> { if k <= n { Some(v[k]) } else { None } };
-    if n >= 2 && v[1] == 5 {
-        if v[2] < 256 {
-            let (r, g, b) = xterm256(v[2]);
-            assert!(got == Some(RGBA::new(r, g, b, 255)));
-        } else {
-            assert!(got.is_none());
-        }
-    } else if n >= 1 && v[1] == 2 {
-        match got {
-            Some(c) => {
-                // exactly the transmitted components (3- or 4-field form); out-of-range values may only be clamped, never wrapped
-                let cl = |x: usize| -> u8 { if x > 255 { 255 } else { x as u8 } };
-                let three = n == 4 && c == RGBA::new(cl(v[2]), cl(v[3]), cl(v[4]), 255);
-                let four = n >= 5 && c == RGBA::new(cl(v[3]), cl(v[4]), cl(v[5]), 255);
-                assert!(three || four);
-            }
-            None => {
-                // a complete, in-range true-colour form must be recognised
-                assert!(!(n == 4 && v[2] <= 255 && v[3] <= 255 && v[4] <= 255));
-                assert!(!(n >= 5 && v[3] <= 255 && v[4] <= 255 && v[5] <= 255));
-            }
-        }
-    } else {
-        assert!(got.is_none());
-    }
-    kani::cover!(got.is_some() && n == 5);
-    kani::cover!(got.is_some() && n == 2 && v[2] > 231);
 }
 
 // ---------------------------------------------------------------------------------------------
@@ -222,31 +168,3 @@ fn ref_sgr(buf: &[u8], len: usize, v: &[usize; 10]) -> RefSgr {
     out
 }
 
-fn sgr_buffer<const N: usize>() -> ([u8; N], usize) {
-    let buf: [u8; N] = kani::any();
-    let len: usize = kani::any();
-    kani::assume(len <= N);
-    let mut i = 0;
-    while i < N {
-        let c = buf[i];
-        kani::assume((c >= b'1' && c <= b'9') || c == b';' || c == b':');
-        if i > 0 { kani::assume(!(c >= b'1' && c <= b'9' && buf[i - 1] >= b'1' && buf[i - 1] <= b'9')); }
-        i += 1;
-    }
-    (buf, len)
-}
-
-//# kind=bounded tier=quick props=C06 bound="SGR parameter strings of <= 5 bytes over {number, ;, :} (<= 3 groups), every numeric value" fns=sgr_face,sgr_color | sgr_face(params) equals the reference SGR interpreter: later parameters override earlier ones, 0/empty resets, colon and semicolon extended-colour forms, unknown codes ignored
-#[kani::proof]
-#[kani::unwind(10)]
-#[kani::stub(number_decode, number_decode_stub)]
-fn c06_sgr_face_bounded5() {
-    let v = set_vals();
-    let (buf, len) = sgr_buffer::<5>();
-    let want = ref_sgr(&buf, len, &v);
-    kani::assume(want.defined);
-    let got = sgr_face(&buf[..len]);
-    assert!(got == want.face);
-    kani::cover!(len == 5 && got.fg.is_some());
-    kani::cover!(len == 5 && got.reset && got.bold == Some(true));
-}
